@@ -375,6 +375,18 @@ def judge(case):
                 key = "charsub:applied@" + m.ctx
             return fail(key, {"marker": m.i, "expected": [m.pre, m.post], "got": [T[max(0, s - 3):s], T[e:e + 3]],
                               "source": a.source}, fl)
+    # ---- (1b) nothing but the words: braces are grouping, never running text -----------------
+    # (the grammar writes no literal brace in running text; a brace next to a word there means a
+    # group was not processed as a group)
+    for m in a.markers:
+        if m.ctx != "text":
+            continue
+        s = mpos[m.i]
+        e = s + len("w%dx" % m.i)
+        around = T[max(0, s - 1):s] + T[e:e + 1]
+        if "{" in around or "}" in around:
+            return fail("text:brace-character-next-to-word@" + m.owner,
+                        {"marker": m.i, "context": T[max(0, s - 6):e + 6], "source": a.source}, fl)
     return ok(fl, nontrivial)
 
 
